@@ -367,7 +367,7 @@ def _sequence_call(a):
 
 
 def sequence_cases(tier, seed):
-  n = 1600 if tier == "quick" else 40000
+  n = 1200 if tier == "quick" else 40000
   steps = 70 if tier == "quick" else 120
   for s in range(n):
     yield {"rng": seed * 1000003 + s, "steps": steps}
@@ -403,7 +403,7 @@ class PositionsMonitor(_monitor_base()):
        C20.position_columns_distinct: in every table, every ManualSortPos / PositionNumber column
        holds pairwise-distinct values (observed through fetch_table)."""
   seeds = ("basic", "refs")
-  length = 7
+  length = 5
   weights = {"add": 14, "bulk_add": 10, "remove": 8, "bulk_remove": 4, "add_col": 6, "remove_col": 4,
              "add_table": 3, "replace_data": 2, "view": 3, "summary": 2, "modify_formula": 1,
              "add_formula_col": 2, "modify_type": 2, "rename_col": 1, "multi": 4}
@@ -443,7 +443,9 @@ class PositionsMonitor(_monitor_base()):
         return [["BulkUpdateRecord", t, rows, {c: vals}]]
     if not tabs:
       return g.bundle(e)
-    if r < 0.50:                                        # a position column born on a non-empty table
+    if r < 0.50 and common.tier() == "thorough" and rng.random() < 0.25:
+      # a position column born on a non-empty table (quick tier: only the directed histories in
+      # main(), because every failing random history costs a shrink)
       t = rng.choice(tabs)
       if rng.random() < 0.5:
         return [["AddColumn", t, "pos", {"type": "PositionNumber", "isFormula": False}]]
@@ -565,29 +567,51 @@ def main():
                      if tier == "quick" else
                      "existing<=3 x batch<=3, existing=4 x batch<=2 (complete) + 1.8M sampled: sub-lists <=6 of 64 adjacent "
                      "floats at 6 magnitudes + specials, batch<=3"),
-    "sequences": "1600 x 70 steps" if tier == "quick" else "40000 x 120 steps",
-    "engine": "seed docs basic, refs; histories of 7 bundles; position-focused action mix "
+    "sequences": "1200 x 70 steps" if tier == "quick" else "40000 x 120 steps",
+    "engine": "seed docs basic, refs; histories of 5 bundles; position-focused action mix "
               "(requests from existing positions, their float neighbours, 0, -1, 1e16, 1e308, "
               "5e-324, +-inf, None; crowding bundles of 20-30 inserts at one place; metadata "
-              "parentPos/pagePos/tabPos updates; position column added to / converted on a "
-              "non-empty table)"}
+              "parentPos/pagePos/tabPos updates) + 3 directed histories (position "
+              "column added to / converted on a non-empty table; a PositionNumber column created with "
+              "its table and then filled); thorough tier also draws the add/convert actions at random"}
 
   single = fn.FnContract(
     name="relabeling.prepare_inserts", call=_single_call,
     requires=lambda a: valid_input(a["existing"], a["keys"]),
     ensures={c: _clause(c) for c in CLAUSES}, classify=_classify, nontrivial=_relabelled,
     show=lambda a: {"existing": list(a["existing"]), "keys": list(a["keys"])})
-  fn.check(rep, single, single_cases, exhaustive=False, limit_quick_s=20, limit_thorough_s=420)
+  fn.check(rep, single, single_cases, exhaustive=False, limit_quick_s=10, limit_thorough_s=420)
 
   seq = fn.FnContract(
     name="relabeling.prepare_inserts[insertion sequences]", call=_sequence_call,
     ensures={c: _clause(c) for c in CLAUSES + ("C20.harness",)}, classify=_classify,
     nontrivial=_seq_nontrivial)
-  fn.check(rep, seq, sequence_cases, exhaustive=False, limit_quick_s=10, limit_thorough_s=200)
+  fn.check(rep, seq, sequence_cases, exhaustive=False, limit_quick_s=6, limit_thorough_s=200)
 
   from vlib.rtc import explore
-  explore.explore(rep, "checks.C20", "PositionsMonitor", n_quick=96, n_thorough=6000,
-                  budget_quick_s=15, budget_thorough_s=240)
+  explore.explore(rep, "checks.C20", "PositionsMonitor", n_quick=48, n_thorough=6000,
+                  budget_quick_s=6, budget_thorough_s=240)
+  # directed histories: position columns that are created on / converted over a non-empty table,
+  # then used (fixed inputs, examined on every run)
+  directed = [("basic", [[["AddColumn", "A", "pos", {"type": "PositionNumber", "isFormula": False}]]]),
+              ("basic", [[["ModifyColumn", "A", "n", {"type": "PositionNumber"}]]]),
+              ("basic", [[["AddTable", "P", [{"id": "pos", "type": "PositionNumber", "isFormula": False}]]],
+                         [["BulkAddRecord", "P", [None, None, None], {}]],
+                         [["AddRecord", "P", None, {"pos": 1.0}]],
+                         [["BulkUpdateRecord", "P", [1, 2], {"pos": [3.0, 3.0]}]]])]
+  mon = PositionsMonitor()
+  for seed_name, hist in directed:
+    try:
+      failures, stats, history = explore.run_history(mon, seed_name, hist)
+    except Exception as e:
+      rep.crash("directed history failed to run: %r" % (e,))
+      continue
+    rep.coverage["evaluations"] = rep.coverage.get("evaluations", 0) + stats["bundles"]
+    for f in failures:
+      rep.violation(f["clause"], {"obligation": f["clause"], "class": f["class"], "seed_doc": seed_name,
+                                  "history": history, "detail": f["detail"], "tier": "bounded",
+                                  "how_to_replay": "apply SEEDS[seed_doc] then `history` on a fresh engine"})
+  rep.coverage["directed_histories"] = len(directed)
   rep.coverage["exhaustive"] = False
   rep.coverage["exhaustive_part"] = ("part 1's enumerated pool is complete for the sizes stated in "
                                      "bound.single_calls; parts 2 and 3 are seeded samples")
